@@ -246,13 +246,13 @@ def gen_match_grid():
             yield {"kind": "match", "events": [ev(0, items)], "classes": [(None, rd, lit)]}
 
 
-def gen_pick_grid():
+def gen_pick_grid(kmax=4):
     always = {"regex": "."}
     never = {"regex": "zzz"}
     depth_cat = {0: [], 1: ["A"], 2: ["B", "C"], 3: ["D", "E", "F"]}
     alt_cat = {0: [], 1: ["Uncategorized"], 2: ["B", "X"], 3: ["D", "E", "G"]}
     n = 0
-    for k in range(0, 5):
+    for k in range(0, kmax + 1):
         for depths in itertools.product(range(4), repeat=k):
             classes = []
             for j, dp in enumerate(depths):
@@ -327,21 +327,37 @@ def rand_rule(rng):
     return rule_dict(rx, rng.choice(SELECTS + ["absent"] * 6), rng.choice([False, True, "absent", "absent"])), lit
 
 
+def derived_rule(rng, events):
+    """A literal rule cut out of a string value that occurs in the events (so that rules overlap on
+    the same events), with the case changed at random and ignore_case at random."""
+    pool = [(k, v) for _, _, _, items in events for k, v in items if type(v) is str and v]
+    if not pool:
+        return rand_rule(rng)
+    k, v = rng.choice(pool)
+    a = rng.randrange(0, len(v))
+    b = rng.randrange(a + 1, len(v) + 1)
+    lit = rng.choice([str, str, str.upper, str.lower, str.swapcase])(v[a:b])
+    sel = rng.choice(["absent", "absent", "absent", [k], [k, "missing"], ["n", k], ["missing"], []])
+    return rule_dict(re.escape(lit), sel, rng.choice([False, True, True, "absent"])), lit
+
+
 def gen_random(rng, n):
     for _ in range(n):
         r = rng.random()
         if r < 0.35:
+            events = rand_events(rng, lambda: rand_data(rng))
             classes = []
             for _ in range(rng.randrange(0, 7)):
-                rd, lit = rand_rule(rng)
+                rd, lit = derived_rule(rng, events) if rng.random() < 0.6 else rand_rule(rng)
                 classes.append((list(rng.choice(CATS)), rd, lit))
-            yield {"kind": "categorize", "events": rand_events(rng, lambda: rand_data(rng)), "classes": classes}
+            yield {"kind": "categorize", "events": events, "classes": classes}
         elif r < 0.6:
+            events = rand_events(rng, lambda: rand_data(rng))
             classes = []
             for _ in range(rng.randrange(0, 7)):
-                rd, lit = rand_rule(rng)
+                rd, lit = derived_rule(rng, events) if rng.random() < 0.6 else rand_rule(rng)
                 classes.append((rng.choice(TAGS), rd, lit))
-            yield {"kind": "tag", "events": rand_events(rng, lambda: rand_data(rng)), "classes": classes}
+            yield {"kind": "tag", "events": events, "classes": classes}
         elif r < 0.8:
             def d():
                 items = rand_data(rng, ("app", "title", "$domain", "$path", "$protocol", "n", "$options", "x"))
@@ -520,7 +536,17 @@ def oracle(case, res, ck):
     out = res[1]
     if kind == "match":
         _, rd, lit = case["classes"][0]
-        want = spec_match(rd, lit, dict(before[0][3]))
+        d0 = dict(before[0][3])
+        sel = rd.get("select_keys")
+        if sel and rd.get("regex"):
+            if any(k not in d0 for k in sel):
+                ck.count("match:select_keys-hits-missing-key")
+            if any(k in d0 and type(d0[k]) is not str for k in sel):
+                ck.count("match:select_keys-hits-non-string")
+        if rd.get("regex") and rd.get("ignore_case") and out and lit is not None \
+                and not spec_match(dict(rd, ignore_case=False), lit, d0):
+            ck.count("match:only-because-of-ignore_case")
+        want = spec_match(rd, lit, d0)
         return None if want == out else f"match: rule {rd} on {before[0][3]}: expected {want}, got {out}"
     if kind == "pick":
         want, degenerate = spec_category([c for c, _, _ in case["classes"]])
@@ -539,6 +565,12 @@ def oracle(case, res, ck):
                 ck.count("categorize:only-empty-categories-match")
             if any(len(c) == 0 for c in cats):
                 ck.count("categorize:an-empty-category-matches")
+            if cats:
+                m = max(len(c) for c in cats)
+                if sum(1 for c in cats if len(c) == m) >= 2:
+                    ck.count("categorize:tie-at-the-deepest-level")
+                if len(cats) >= 2:
+                    ck.count("categorize:overlapping-rules")
             if not same(dict(a[3])["$category"], want):
                 return f"category: event {n}: expected {want}, got {dict(a[3])['$category']}"
         return None
@@ -568,9 +600,9 @@ def nontrivial(case, res):
     if kind == "pick":
         return len(case["classes"]) >= 2
     if kind == "categorize":
-        return any(dict(e[3])["$category"] != ["Uncategorized"] for e in res[1])
+        return any(dict(e[3]).get("$category") != ["Uncategorized"] for e in res[1])
     if kind == "tag":
-        return any(dict(e[3])["$tags"] for e in res[1])
+        return any(dict(e[3]).get("$tags") for e in res[1])
     if kind == "split":
         return any("$domain" in dict(e[3]) for e in res[1])
     if kind == "simplify":
@@ -595,7 +627,7 @@ def main(argv=None):
     have_driver = ck.driver()
 
     n_rand = 4000 if ck.tier == "quick" else 250000
-    cases = list(gen_pick_grid()) + list(gen_url_grid()) + list(gen_title_grid())
+    cases = list(gen_pick_grid(4 if ck.tier == "quick" else 6)) + list(gen_url_grid()) + list(gen_title_grid())
     grid = list(gen_match_grid())
     cases += grid
     cases += list(gen_random(ck.rng, n_rand))
@@ -612,14 +644,20 @@ def main(argv=None):
         ck.count(f"{kind}:events={len(case['events'])}")
         if "classes" in case and kind in ("categorize", "tag"):
             ck.count(f"{kind}:rules={len(case['classes'])}")
-        nt = nontrivial(case, res)
+        try:
+            nt = nontrivial(case, res)
+        except Exception:  # noqa: BLE001
+            nt = False
         ck.count(f"{kind}:{'nontrivial' if nt else 'default'}")
         ck.note_case(canon(case), nontrivial=nt)
         if nt and kind in ("categorize", "tag", "split", "simplify") and len(case["events"]) >= 1 \
                 and sum(1 for s in ck.samples if s["kind"] == kind) < 1:
             ck.sample({"kind": kind, "key": case.get("key"), "events": canon(case)[2],
                        "classes": canon(case)[3], "impl": res}, limit=8)
-        bad = oracle(case, res, ck)
+        try:
+            bad = oracle(case, res, ck)
+        except Exception as ex:  # noqa: BLE001 - an output the oracle cannot even read is a failing input
+            bad = f"malformed: the oracle could not read the output ({type(ex).__name__}: {ex})"
         if bad:
             ck.failing_input("C19:" + bad.split(":")[0], bad,
                              {"case": canon(case), "base_us": BASE, "impl_output": res})
@@ -642,6 +680,11 @@ def main(argv=None):
             if not agree(mres, io):
                 ck.disagreement(case["kind"], f"{case['kind']}: model {mres} impl {io}",
                                 {"case": canon(case), "wire": w, "model": mo, "impl": io})
+    ck.coverage["ties"] = {
+        "A (differential, extracted model)": ["Rule.__init__", "Rule.match", "_pick_deepest_cat", "_pick_category",
+                                              "categorize", "tag", "split_url_events", "simplify_string"],
+        "B (regenerated from source + bridge lemma)": GEN_KERNELS,
+    }
     ck.trusted += ["re / urllib.parse.urlparse / str slicing are external to the model: tabulated per case by the "
                    "harness from the real libraries (the harness' own compile flags and its own copy of the three "
                    "simplify patterns) and passed to the model as Section functions"]
